@@ -70,6 +70,7 @@ NAMED = [
     ("restart on a history, reset, self request", [S("op", "-", "en"), S("op", "-", "rs"), S("op", "c1", "enq"), S("op", "c2", "enq"), S("new"), S("op", "-", "rs"), S("deliver"), S("close"), S("new"), S("settle"), S("op", "self", "enq"), S("peer", "c1", "good"), S("settle")]),
     ("crossing requests: incoming on to-request marks sent", [S("new"), S("op", "-", "en"), S("deliver"), S("op", "c1", "enq"), S("deliver"), S("inc", "c1", "good"), S("deliver"), S("settle")]),
     ("disable keeps lookups, close ends them", [S("new"), S("op", "-", "en"), S("deliver"), S("op", "-", "rs"), S("deliver"), S("op", "c1", "enq"), S("deliver"), S("op", "-", "dis"), S("deliver"), S("settle"), S("close"), S("settle")]),
+    ("an incoming request of an unblocked (removed) contact ends the lookup that survived the block", [S("new"), S("op", "-", "en"), S("deliver"), S("op", "c1", "enq"), S("deliver"), S("op", "c1", "blk"), S("deliver"), S("op", "c1", "unb"), S("deliver"), S("inc", "c1", "good"), S("deliver"), S("settle")]),
     ("close racing with a held event", [S("new"), S("op", "-", "en"), S("close", x=1), S("settle"), S("new"), S("settle")]),
 ]
 
@@ -398,7 +399,10 @@ def run_part(ctx, replay_scripts=None):
         ev3 = ctx.run_sharded(binres["bin"], DRV, PKG, [sid[i] for i in ids], "crm_k", shards=min(4, len(ids)), timeout=1200, chunk=60)
         b3 = [(bid, evs) for bid, evs in vf.split_traces(ev3) if not any(e.get("ev") == "reset" and "skip" in e and e["id"] == bid for e in ev3)]
         again = {(b, c) for (b, _, cl, _) in monitor(ctx, b3, "crm_k") for c in cl if c.startswith("K")} if b3 else set()
-        for (bid, at, c, line) in kbad:
+        first_k = {}
+        for k in kbad:
+            first_k.setdefault((k[0], k[2]), k)      # one report per script and clause: the first line
+        for (bid, at, c, line) in sorted(first_k.values(), key=lambda k: (k[0], k[1])):
             rec = {"clause": c, "what": CLAUSE_TEXT[c], "script": _replay_text(sid[bid]), "step": at, "line": line, "reproduced": (bid, c) in again}
             cm["c07_clause_rejects"].append(rec)
             if rec["reproduced"] and ROUTE_C07:
